@@ -150,7 +150,7 @@ var c03TrigVariants = []trigVariant{
 
 const (
 	nTrigNames  = 2
-	nTrigPlaces = 6
+	nTrigPlaces = 8
 	nTrigForms  = 3
 )
 
@@ -186,6 +186,13 @@ func c03TriggersCase(tier string, idx int) *c03Case {
 	case 4: // callback defined before main, trigger after a closure literal
 		p.Funcs = append(p.Funcs, cb, mainFn(append(decl, hs.LetS("k", fnLit(hs.TInt, hs.Blk(hs.I(1)))), use("k"), tr)...))
 		return single(p, tags...)
+	case 6, 7: // declared on the callback itself: `#[trigger at name(args)] event fn ...` (arguments in module scope)
+		p.Globals = append(p.Globals, &hs.Let{Name: "iv", X: hs.I(3)}, &hs.Let{Name: "sv", X: hs.S("home")})
+		cb.Annots = []hs.Annot{{Trig: &hs.Trigger{Kind: "at", Event: v.name, Args: v.args(form)}}}
+		if place == 7 { // next to the one identifier annotation there is, on a callback nothing else mentions
+			cb.Annots = append([]hs.Annot{{Ident: "allow_unused"}}, cb.Annots...)
+		}
+		p.Funcs = append(p.Funcs, mainFn(use("iv"), use("sv")))
 	case 5: // in a helper that is defined before the callback and called from a closure
 		p.Funcs = append(p.Funcs, hs.Fn("setup", nil, hs.Blk(nil, append(decl, tr)...)), mainFn(hs.LetS("k", fnLit(nil, hs.Blk(nil, hs.ES(hs.CallN("setup"))))), hs.ES(hs.CallE(hs.V("k")))))
 	}
